@@ -630,21 +630,16 @@ fn range<'s>(input: &mut &'s str) -> PResult<Vec<BoundSet>, SemverParseError<&'s
     Parser::map(
         separated(0.., simple, space1),
         |bs: Vec<Option<BoundSet>>| {
-            bs.into_iter()
-                .flatten()
-                .fold(Vec::new(), |mut acc: Vec<BoundSet>, bs| {
-                    if let Some(last) = acc.pop() {
-                        if let Some(bound) = last.intersect(&bs) {
-                            acc.push(bound);
-                        } else {
-                            acc.push(last);
-                            acc.push(bs);
-                        }
-                    } else {
-                        acc.push(bs)
-                    }
-                    acc
-                })
+            // A space-separated comparator set is a conjunction: when two of
+            // its comparators cannot both hold, the whole set matches nothing.
+            let mut comparators = bs.into_iter().flatten();
+            let Some(first) = comparators.next() else {
+                return Vec::new();
+            };
+            comparators
+                .try_fold(first, |acc, bs| acc.intersect(&bs))
+                .into_iter()
+                .collect()
         },
     )
     .parse_next(input)
